@@ -1,6 +1,9 @@
 #![cfg_attr(feature = "nightly", feature(allocator_api))]
 mod core;
 mod sodium;
+mod aead;
+mod c01;
+mod c02;
 mod c03;
 #[cfg(feature = "nightly")]
 mod pm;
@@ -16,6 +19,8 @@ fn replay(path: &str) -> i32 {
     let prop = v["property"].as_str().unwrap_or("?");
     let run = |case: &Value| -> Option<String> {
         match check {
+            "C01.aead" => c01::replay(case),
+            "C02.fault" => c02::replay(case),
             "C03.model" => c03::replay_model(case),
             "C03.sweep" => c03::replay_sweep(case),
             #[cfg(feature = "nightly")]
@@ -53,6 +58,9 @@ fn main() {
     }
     let code = match args[1].as_str() {
         "replay" => replay(&args[2]),
+        "C01" => c01::run(),
+        "C02" => c02::run(c02::Mode::Tamper),
+        "C17" => c02::run(c02::Mode::Leak),
         "C03" => c03::run(),
         #[cfg(feature = "nightly")]
         "pmworker" => pm::worker(&args[2..]),
